@@ -287,6 +287,19 @@ pub const TEXT: Alpha = alpha(
     &[],
 );
 
+/// text::Dna as a raw 8-bit container: every byte is a storable pattern (only
+/// A,C,G,T,N are symbols); unsafe_from_bits is the identity wrapper, so
+/// positional reads are compared as raw codes
+pub const TEXT_RAW: Alpha = {
+    let mut a = alpha(8, &[], &[], &[]);
+    let mut i = 0;
+    while i < 256 {
+        a.from_bits[i] = i as i16;
+        i += 1;
+    }
+    a
+};
+
 // ---------------------------------------------------------------- masked 4-bit DNA
 // documented (codec/masked/dna.rs): one-hot A C G T, masked form = bitwise
 // inverse, N=0000 / n=1111, gap '-' 1100 (alt 0011), pad '.' 1010 (alt 0101),
